@@ -209,13 +209,24 @@ def run_nx(units, tier, repo, use_cache=True):
         lockf.close()
 
 
-def nx_obligations(unit_name, desc, tier, cres):
+def nx_obligations(unit_name, desc, tier, cres, prop=None):
+    """Obligations of one NX unit as far as they express `prop` (unit json: ob_props = {obligation: [properties]};
+    an unmapped obligation is a lemma of every property that lists the unit).  A stand-in test stops at its first failing
+    assertion: when that assertion belongs to another property, this property's clauses in the same test were not
+    evaluated to the end - that is reported as undecided, never as a violation of this property."""
     obs, failed, undecided = [], {}, []
+    ob_props = desc.get('ob_props', {})
+
+    def mine(o):
+        return prop is None or o not in ob_props or prop in ob_props[o]
     for t in desc['tests']:
         if tier != 'thorough' and t.get('tier', 'quick') != 'quick':
             continue
         short = t['name'].split('::')[-1]
-        ids = ['%s/%s/%s' % (unit_name, short, o) for o in t['obligations']]
+        own = [o for o in t['obligations'] if mine(o)]
+        if not own:
+            continue
+        ids = ['%s/%s/%s' % (unit_name, short, o) for o in own]
         for oid in ids:
             obs.append({'id': oid, 'engine': 'NX', 'kind': 'bounded', 'bound': t.get('bound', ''), 'harness': t['name']})
         if cres.get('error'):
@@ -231,8 +242,13 @@ def nx_obligations(unit_name, desc, tier, cres):
         msg = r.get('message', '')
         m = re.search(r'OB (\S+?):', msg)
         ob = m.group(1).split('/', 1)[-1] if m else t['obligations'][0]
+        if not mine(ob):
+            undecided.append('%s: the stand-in stopped at obligation `%s`, which belongs to %s; the clauses of %s in this test were not evaluated to the end'
+                             % (t['name'], ob, '/'.join(ob_props.get(ob, ['another property'])), prop))
+            continue
         lines = [l for l in msg.split('\n') if l.strip() and not l.lstrip().startswith(('stack backtrace', 'at ', 'note:')) and not re.match(r'\s*\d+:', l)]
-        failed.setdefault('%s/%s/%s' % (unit_name, short, ob), []).append(' | '.join(lines[:8])[:1500])
+        cases = [l for l in lines if l.startswith('case=')]
+        failed.setdefault('%s/%s/%s' % (unit_name, short, ob), []).append(' | '.join(lines[:8])[:1500] if not cases else '\n'.join(lines)[:60000])
     return obs, failed, undecided
 
 
@@ -352,7 +368,7 @@ def main(argv):
     for u in nx_units:
         desc = load_nx_unit(u)
         cres = nx_res.get(desc['crate'], {})
-        obs, fl, und = nx_obligations(u, desc, a.tier, cres)
+        obs, fl, und = nx_obligations(u, desc, a.tier, cres, a.prop)
         all_obs += obs
         for k, v in fl.items():
             failed.setdefault(k, []).extend(v)
@@ -388,7 +404,15 @@ def main(argv):
     known_hits = []
     for oid, details in sorted(failed.items()):
         k = [f for f in known['findings'] if f['property'] == a.prop and f['obligation'] == oid]
-        if k:
+        if k and k[0].get('inputs') is not None:
+            # a finding recorded for specific inputs covers exactly those: any other failing input of the same obligation is a violation
+            got = set(re.findall(r'input=("(?:[^"\\]|\\.)*")', '\n'.join(details)))
+            extra = sorted(got - set(k[0]['inputs']))
+            if got and not extra:
+                known_hits.append((oid, k[0]))
+            else:
+                violations.append((oid, details + (['inputs not covered by the recorded finding: ' + ' ; '.join(extra[:5])] if extra else ['no failing input could be read from the output'])))
+        elif k:
             known_hits.append((oid, k[0]))
         else:
             violations.append((oid, details))
@@ -451,6 +475,7 @@ def main(argv):
                                      for t in desc['tests']]}
     if kx_report.get('injection'):
         cov['kx_injection'] = kx_report['injection']
+    cov['known_findings_hit'] = [{'obligation': oid, 'what': k['what']} for oid, k in known_hits]
     ev = {
         'property_id': a.prop, 'tier': a.tier, 'seed': seed, 'level': level, 'coverage': cov,
         'assumptions': sorted(set(registry.TRUSTED_BASE + assumptions + ['NOT DECIDED: ' + x for x in P.get('not_decided', [])])),
